@@ -268,6 +268,27 @@ impl Sx {
                     ret = json!({"ops": ops_out});
                     t.apply_delta(txn, delta);
                 }
+                "amix" => {
+                    // a range of plain values with a nested map in the middle (the C API takes it in ONE call)
+                    let a: ArrayRef = match &target {
+                        Out::YArray(a) => a.clone(),
+                        _ => return Err("not an array".into()),
+                    };
+                    let (v1, t1) = self.val();
+                    let (v2, t2) = self.val();
+                    let (p, mut nd) = self.prelim("M");
+                    let (v3, t3) = self.val();
+                    a.insert_range(txn, i, vec![v1, v2]);
+                    let out = a.insert(txn, i + 2, p);
+                    a.insert(txn, i + 3, v3);
+                    let t = out.try_branch().map(token_of).unwrap_or_default();
+                    nd[0]["tok"] = json!(t);
+                    new_cells.push(json!({"tag": t1, "w8": 1, "w16": 1, "kind": "val", "ref": ""}));
+                    new_cells.push(json!({"tag": t2, "w8": 1, "w16": 1, "kind": "val", "ref": ""}));
+                    new_cells.push(json!({"tag": t, "w8": 1, "w16": 1, "kind": "type", "ref": t}));
+                    new_cells.push(json!({"tag": t3, "w8": 1, "w16": 1, "kind": "val", "ref": ""}));
+                    nested = nd;
+                }
                 "ains" | "apushb" | "apushf" | "arange" => {
                     let a: ArrayRef = match &target {
                         Out::YArray(a) => a.clone(),
